@@ -42,9 +42,9 @@ var skipFuncs = map[string]bool{
 
 var skipFiles = map[string]bool{
 	"lib/verif_on.go": true, "lib/verif_off.go": true,
-	"node/log.go": true, "node/logger.go": true,
+	"node/log.go":           true,
 	"gen/default_logger.go": true,
-	"gen/types.go": true, // process-global CRC cache: first-use effects would differ between runs
+	"gen/types.go":          true, // process-global CRC cache: first-use effects would differ between runs
 }
 
 var gateMethods = map[string]bool{
